@@ -103,6 +103,15 @@ def corpus(driver):
         else: sc.d(b'/W/DEST/S/current').f(b'/W/DEST/S/current/old')
         sc.opts = ['r']; sc.paths = [b'S', b'DEST']; sc.meta = dict(srcs=[b'/W/S'], dest=b'/W/DEST', destk='dir-populated', single_file=False); sc.tag = 'relinked-' + variant
         out.append(sc)
+    # several operands that are different NAMES of one real file (a versioned library and its links; a file and a link to it):
+    # every operand is an entry of its own and must be mirrored, in any order
+    for order in ((0, 1, 2), (2, 1, 0), (1, 0, 2)):
+        sc = treerun.Scn(); sc.driver = driver
+        sc.d(b'/W').d(b'/W/lib').f(b'/W/lib/libfoo.so.1.2.3').l(b'/W/lib/libfoo.so.1', b'libfoo.so.1.2.3').l(b'/W/lib/libfoo.so', b'libfoo.so.1').f(b'/W/lib/README').d(b'/W/DEST')
+        ops = [b'lib/libfoo.so.1.2.3', b'lib/libfoo.so.1', b'lib/libfoo.so']
+        sc.opts = ['r']; sc.paths = [ops[k] for k in order] + [b'lib/README', b'DEST']
+        sc.meta = dict(srcs=[b'/W/' + ops[k] for k in order] + [b'/W/lib/README'], dest=b'/W/DEST', destk='dir-empty', single_file=False); sc.tag = 'aliased-operands'
+        out.append(sc)
     return out
 
 
